@@ -164,7 +164,15 @@ func (v Value) IsNaN() bool {
 		return false
 	}
 
-	return math.IsNaN(v.float64())
+	// Converting an object runs its valueOf/toString, which may throw: report "not NaN" then
+	// instead of letting the exception escape as a Go panic (ToFloat returns it as an error).
+	result := false
+	if err := catchPanic(func() {
+		result = math.IsNaN(v.float64())
+	}); err != nil {
+		return false
+	}
+	return result
 }
 
 // IsString will return true if value is a string (primitive).
